@@ -48,6 +48,10 @@ def plan(tier, seed):
     return groups, meta
 
 
+def dscale_(D):
+    return max(np.abs(D).max(), 1e-12)
+
+
 def _spec(D):
     return np.linalg.eigvalsh((D + D.conj().T) / 2)
 
@@ -204,6 +208,35 @@ def run_case(case, seed, c, st):
         nz = int((np.abs(s0) <= 1e-9 * scale).sum())
         if nz < 3:
             return fail("sum-rule", "only %d eigenvalues vanish at Gamma: %s" % (nz, s0[:4].tolist()), float(np.sort(np.abs(s0))[2] / scale))
+    # 5b the relations do not depend on how the caller stores the q-points (views, Fortran order, slices of tables)
+    if lang == "C":
+        from vtk.alphabet import qsets as QL
+
+        qarr = np.array(base[6:11], float)
+        Dref = [D(q) for q in qarr]
+        for lname, qa in QL.layouts(qarr).items():
+            # the batched entry point (what run_qpoints / meshes / band paths use)
+            from phonopy.harmonic.dynamical_matrix import run_dynamical_matrix_solver_c
+
+            for arr, sgn in ((qa, 1), (-np.asfortranarray(qarr) if lname == "fortran-order" else None, -1)):
+                if arr is None:
+                    continue
+                Ds = np.array(run_dynamical_matrix_solver_c(dm, arr))
+                trans[0] += 1
+                for k in range(len(qarr)):
+                    want = Dref[k] if sgn == 1 else Dref[k].conj()
+                    e = np.abs(Ds[k] - want).max() / dscale_(Dref[k])
+                    if e > TOL:
+                        return fail("q-layout-batch", "batched D(%sq) with the q-points as %s differs from one-by-one evaluation by %.3g" % ("-" if sgn < 0 else "", lname, e), e)
+            if not isinstance(qa, np.ndarray):
+                continue
+            for k in range(len(qarr)):
+                for sgn in (1, -1):
+                    Dk = D(sgn * qa[k]) if sgn == 1 else D(-qa[k])
+                    want = Dref[k] if sgn == 1 else Dref[k].conj()
+                    e = np.abs(Dk - want).max() / dscale_(Dref[k])
+                    if e > TOL:
+                        return fail("q-layout", "D(%sq) evaluated at a row of a %s array differs from the same q as a fresh array by %.3g" % ("-" if sgn < 0 else "", lname, e), e)
     # 6 scaling: fc*s, masses*t through the Phonopy API
     npairs_S = 0
     if lang == "C":
@@ -223,6 +256,16 @@ def run_case(case, seed, c, st):
                     worst = max(worst, e)
                     if e > TOL:
                         return fail("scaling", "eigenvalues of (s*fc, t*m) differ from (s/t)*eigenvalues by %.3g (s=%g,t=%g)" % (e, s_, t_), e)
+                if (s_, t_) == (2.0, 3.7):
+                    # the scaled state survives copy(): the copy is built from the unit cell's masses
+                    ph2 = phx.quiet(ph.copy)  # init parameters (cells incl. masses) only
+                    ph2.force_constants = fc * s_
+                    for q, r0 in zip(qsc, ref):
+                        s1 = _spec(np.array(ph2.get_dynamical_matrix_at_q(q)))
+                        trans[0] += 1
+                        e = np.abs(s1 - r0 * (s_ / t_)).max() / (scale * s_ / t_)
+                        if e > TOL:
+                            return fail("scaling-through-copy", "after masses*=t, fc*=s a copy() of the object has eigenvalues off (s/t)*original by %.3g" % e, e)
                 # masses must have propagated to supercell and unit cell
                 sm = np.asarray(ph.supercell.masses)
                 p2p = ph.primitive.p2p_map
